@@ -84,7 +84,7 @@ class Stats:
         self.sched.update(repr(fields).encode())
 
     def state(self, root_hash):
-        self.states.add(root_hash[:6])
+        self.states.add(root_hash[:6] if isinstance(root_hash, bytes) else b"<bad>")
 
     def digest(self):
         return self._h.digest()[:8]
